@@ -2,7 +2,7 @@
    agent or files readable solely by the user, certificates installed in the agent replace earlier
    ones with the same label, and every key type the client offers is one the server certifies. *)
 From Coq Require Import String.
-From KM Require Import Base.Bytes Model.KeyStrength Model.Client Proofs.Client.
+From KM Require Import Base.Bytes Model.KeyStrength Model.Client Proofs.Client Model.ClientEnv Proofs.ClientEnv.
 
 (* taint theorem over the client's request builders: whatever the signers hold, every atom of
    every request of a setupCerts run (with or without a one-time-code step) is text, the password
@@ -16,6 +16,18 @@ Print Assumptions c19_wire_only_public.
 Theorem c19_no_private_on_wire : forall otp a, In a (wire_atoms (setup_wire2 otp make_signers)) -> is_priv a = false.
 Proof. exact no_private_on_wire. Qed.
 Print Assumptions c19_no_private_on_wire.
+
+(* the web-browser login (lib/client/webauth): the client's own requests are the pre-connect, the verification of
+   the CLI token and the same four certificate requests; whatever the signers hold, the key material in them is
+   signer.Public(); with real signers neither a request nor the URL handed to the browser carries anything private *)
+Theorem c19_wire_only_public_web : forall sg a, In a (wire_atoms (setup_wire_web sg)) ->
+  a = AText \/ a = ASecret \/ a = public (sg_x509 sg) \/ a = public (sg_ssh sg) \/ a = public (sg_ed sg).
+Proof. exact wire_web_only_public. Qed.
+Print Assumptions c19_wire_only_public_web.
+
+Theorem c19_no_private_on_wire_web : forall a, In a (wire_atoms (setup_wire_web make_signers) ++ browser_url) -> is_priv a = false.
+Proof. exact no_private_on_wire_web. Qed.
+Print Assumptions c19_no_private_on_wire_web.
 
 (* private halves go to the agent or into files of mode 0600, for every preference, user name,
    agent present or not, optional certificates issued or not *)
@@ -79,6 +91,58 @@ Theorem c19_old_existing_mode_refuted : exists existing umask, others_bits (writ
 Proof. exists (Some 420%N), 18%N. exact plain_write_keeps_mode. Qed.
 Print Assumptions c19_old_existing_mode_refuted.
 
+(* WHICH agent.  The world is a list of paths with what each names (agents with their identities, sockets that
+   do not speak the protocol, stale socket files, regular files, directories); the environment carries
+   SSH_AUTH_SOCK, TMPDIR, HOME and XDG_RUNTIME_DIR.  For every environment and every world: an installation
+   (WithAddedKeyUpsertCertIntoAgent / UpsertCertIntoAgent at the default location) leaves every path that
+   SSH_AUTH_SOCK does not name exactly as it was. *)
+Theorem c19_only_designated_agent : forall e n w q, agent_of e <> Some q ->
+  lookup q (fst (world_upsert e n w)) = lookup q w.
+Proof. exact world_upsert_frame. Qed.
+Print Assumptions c19_only_designated_agent.
+
+(* the agent SSH_AUTH_SOCK names receives exactly the replacement of c19_agent_replace, and success is reported *)
+Theorem c19_designated_agent_upsert : forall e n w p a, agent_of e = Some p -> lookup p w = Some (NAgent a) ->
+  lookup p (fst (world_upsert e n w)) = Some (NAgent (upsert n a)) /\ snd (world_upsert e n w) = true.
+Proof. exact world_upsert_designated. Qed.
+Print Assumptions c19_designated_agent_upsert.
+
+(* no agent designated (SSH_AUTH_SOCK unset or empty): an error is reported and NO agent of the world, wherever
+   it listens, has received anything; the same when the designated path has no agent behind it *)
+Theorem c19_no_agent_adds_nothing : forall e n w, agent_of e = None -> world_upsert e n w = (w, false).
+Proof. exact world_upsert_none. Qed.
+Print Assumptions c19_no_agent_adds_nothing.
+
+Theorem c19_unusable_agent_adds_nothing : forall e n w, usable e w = false -> world_upsert e n w = (w, false).
+Proof. exact world_upsert_unusable. Qed.
+Print Assumptions c19_unusable_agent_adds_nothing.
+
+(* the client's installation of one SSH key (insertSSHCertIntoAgentORWriteToFilesystem: agent with lifetime,
+   agent without, else files), for every environment, world, key, user: every path other than the one
+   SSH_AUTH_SOCK names is unchanged; when no usable agent is designated the world is unchanged altogether,
+   nothing goes to an agent and every file with private content has mode 0600; when one is, no file is written *)
+Theorem c19_install_only_designated : forall e w suffix user s k n,
+  let r := install_ssh_env e w suffix user s k n in
+  (forall q, agent_of e <> Some q -> lookup q (fst r) = lookup q w) /\
+  (usable e w = false ->
+     fst r = w /\
+     forall sk, In sk (snd r) ->
+       match sk with
+       | SAgent _ _ _ => False
+       | SFile _ mode content => (exists a, In a content /\ is_priv a = true) -> mode = 384%N
+       end) /\
+  (usable e w = true ->
+     forall sk, In sk (snd r) -> match sk with SAgent _ _ _ => True | SFile _ _ _ => False end).
+Proof. exact install_only_designated. Qed.
+Print Assumptions c19_install_only_designated.
+
+(* a client that "discovers" a running agent among the sockets under $TMPDIR/ssh-*/ when SSH_AUTH_SOCK gives no
+   connection hands the identity to an agent nobody designated *)
+Theorem c19_agent_discovery_refuted : exists e n w q, agent_of e = None /\
+  lookup q (fst (world_upsert_discover e n w)) <> lookup q w.
+Proof. exists ex_env, ex_new, [(ex_decoy, NAgent [])], ex_decoy. exact discovery_reaches_undesignated. Qed.
+Print Assumptions c19_agent_discovery_refuted.
+
 (* offered ⊆ accepted, in terms of its parts; Obl_C19 closes offered_all_accepted = true over the
    alternatives of the server's pattern and the client's RSA size regenerated from the source *)
 Theorem c19_offered_accepted_spec : forall alts rsa_bits, offered_all_accepted alts rsa_bits = true ->
@@ -108,4 +172,14 @@ Example c19_ex_files : files_of (install make_signers PrefP256 "alice" false tru
   [(".ssh/keymaster-ed25519", 384, true); (".ssh/keymaster-ed25519-cert.pub", 420, false);
    (".ssh/keymaster-p256", 384, true); (".ssh/keymaster-p256-cert.pub", 420, false);
    (".ssl/keymaster.key", 384, true); (".ssl/keymaster.cert", 420, false)]%N%string.
+Proof. vm_compute. reflexivity. Qed.
+
+Example c19_ex_no_agent :
+  let e := mkEnv None [116] [104] [120] in let decoy := [116; 47; 115; 115; 104; 45; 65; 47; 97] in
+  let r := install_ssh_env e [(decoy, NAgent [])] "p256" "alice" (make_signer KSshMain) KSshMain (mkEntry [1] [13] true) in
+  fst r = [(decoy, NAgent [])] /\ files_of (snd r) = [(".ssh/keymaster-p256", 384, true); (".ssh/keymaster-p256-cert.pub", 420, false)]%N%string.
+Proof. vm_compute. split; reflexivity. Qed.
+
+Example c19_ex_wire_web : map req_code (setup_wire_web make_signers) =
+  [(0, []); (6, [1]); (2, [20]); (3, [20]); (4, [21]); (4, [22])]%N.
 Proof. vm_compute. reflexivity. Qed.
